@@ -194,7 +194,13 @@ func (rc *LRURevisionCache) Peek(ctx context.Context, docID string, versionStrin
 	if value == nil {
 		return DocumentRevision{}, false
 	}
+	// The value may be in the middle of a load or store by another goroutine: reading it without the value lock
+	// can return a partially written revision. Peek never waits, so treat a value that is being written as absent.
+	if !value.lock.TryRLock() {
+		return DocumentRevision{}, false
+	}
 	docRev, err := value.asDocumentRevision(nil)
+	value.lock.RUnlock()
 	if err != nil {
 		return DocumentRevision{}, false
 	}
